@@ -45,12 +45,12 @@ def gen_cases(ctx, kind):
     for (no, cc) in sets:
         o = sgmod.sg(sgno=no, cell_choice=cc)
         cls.setdefault((o.Laue, o.cell_choice == "rhombohedral"), []).append((no, cc))
-    reps = ctx.n(1, 14)
+    reps = ctx.n(1, 60)
     plan = []
     for rep in range(reps):
         for (no, cc) in sets:
             plan.append((rep, no, cc))
-    floor = ctx.n(12, 60)
+    floor = ctx.n(12, 240)
     for key, members in sorted(cls.items()):
         have = len(members) * reps
         k = 0
@@ -64,9 +64,9 @@ def gen_cases(ctx, kind):
         s = int(rng.integers(0, 2 ** 31))
         target = int(rng.integers(30, 300 if ctx.tier == "quick" else 600))
         variant = variants[(rep + no + ctx.seed) % 3]
-        big = ctx.thorough() and rep == 1
+        big = ctx.thorough() and rep in (1, 2, 3)
         if ctx.mine(idx):
-            yield kind, {"no": no, "cc": cc, "variant": "orth" if big else variant, "s": s,
+            yield kind, {"no": no, "cc": cc, "variant": ["generic", "orth", "pseudo"][rep % 3] if big else variant, "s": s,
                          "target": 2500 if big else target,
                          "want_min": bool((rep + no) % 3 == 0),
                          "module": "laue" if (idx + rep) % 3 == 0 else "tools"}
